@@ -88,7 +88,7 @@ class FindFilter:
 
         else:
             return next(
-                (itm for itm in left if _getitem(itm, key) not in (False, None)),
+                (itm for itm in left if is_truthy(_getitem(itm, key))),
                 None,
             )
 
@@ -125,7 +125,7 @@ class FindIndexFilter(FindFilter):
                 (
                     i
                     for i, itm in enumerate(left)
-                    if _getitem(itm, key) not in (False, None)
+                    if is_truthy(_getitem(itm, key))
                 ),
                 None,
             )
@@ -159,7 +159,7 @@ class HasFilter(FindFilter):
 
         else:
             return any(
-                (itm for itm in left if _getitem(itm, key) not in (False, None)),
+                (itm for itm in left if is_truthy(_getitem(itm, key))),
             )
 
         return False
